@@ -53,13 +53,14 @@ def c_iforest(trees):
 
 KIND = {"call": "Call", "return": "Return", "c_call": "CCall", "c_return": "CReturn", "c_exception": "CException"}
 LIB = {"NONE": "LNone", "SINGLE": "LSingle", "NESTED": "LNested"}
+PATT = {None: "PRegex", "regex": "PRegex", "bogus": "PRegex", "glob": "PGlob", "simple": "PSimple"}
 
 
 def c_case(k):
     env = "None" if k["env"] is None else "(Some [%s])" % "; ".join(cs(p) for p in k["env"])
-    return ("{| k_env := %s; k_lib := %s; k_pymain := %s;\n   k_funcs := [%s];\n   k_forests := [%s];\n   k_raw := [%s];\n"
+    return ("{| k_patt := %s; k_env := %s; k_lib := %s; k_pymain := %s;\n   k_funcs := [%s];\n   k_forests := [%s];\n   k_raw := [%s];\n"
             "   k_hooks := [%s];\n   k_symtab := [%s] |}") % (
-        env, LIB[k["lib"]], c_opt(k["pymain"]),
+        PATT[k.get("patt")], env, LIB[k["lib"]], c_opt(k["pymain"]),
         "; ".join(c_func(f) for f in k["rfuncs"]),
         "; ".join(c_iforest([t]) for t in k["forest"]),
         "; ".join("(%s, %d%%nat)" % (KIND[kd], i) for kd, i in k["raw"]),
@@ -69,7 +70,7 @@ def c_case(k):
 
 PRE = """From Coq Require Import ZArith NArith List Bool.
 Import ListNotations.
-Require Import UV.C19.Model.
+Require Import UV.C19.Model UV.C19.SymFile.
 """
 
 
@@ -101,6 +102,10 @@ def func_universe(rng, pymain):
     u.append((py(None, "na", "/m/d/n.py"), "no-modname-maindir"))
     u.append((py(None, "nb", "/u/l/n.py", modkind="int"), "modname-not-str"))
     u.append((py("builtins", "fa", "/u/l/b.py"), "libpy"))
+    if rng.random() < 0.15:
+        # two functions with one name and different library flags: the first one seen wins
+        u.append((py(None, "mm.ga", "/u/l/x.py"), "name-collision"))
+        u.append((py(None, "lb.ha", "/m/d/y.py"), "name-collision"))
     for e in CPOOL:
         u.append(({"t": "c", "expr": e}, "cfunc"))
     return u
@@ -139,7 +144,40 @@ def gen_pattern(rng, names):
     else:
         p = "^" + n + "$"
     p = "".join(c for c in p if c not in "?*+-|()[]{}\\;!@")
-    return p or n
+    return swapcase(rng, p or n)
+
+
+def swapcase(rng, p):
+    """now and then a pattern that differs from the name in the case of one letter (matching is case sensitive)"""
+    idx = [i for i, c in enumerate(p) if c.isalpha()]
+    if idx and rng.random() < 0.12:
+        i = rng.choice(idx)
+        p = p[:i] + p[i].swapcase() + p[i + 1:]
+    return p
+
+
+def gen_glob(rng, names):
+    """fnmatch patterns within the modelled subset: '*', '?', literals ('.', '^', '$', '<' are literals)"""
+    n = rng.choice(names)
+    k = rng.randrange(7)
+    if k == 0:
+        p = n[:rng.randrange(1, min(4, len(n)) + 1)] + "*"
+    elif k == 1:
+        p = "*" + n[-rng.randrange(1, min(5, len(n)) + 1):]
+    elif k == 2:
+        i = rng.randrange(len(n))
+        p = n[:i] + "?" + n[i + 1:]
+    elif k == 3:
+        i, j = sorted((rng.randrange(len(n) + 1), rng.randrange(len(n) + 1)))
+        p = n[:i] + "*" + n[j:]
+    elif k == 4:
+        p = "*" + n[rng.randrange(len(n)):][:3] + "*"
+    elif k == 5:
+        p = rng.choice(["*", "?*", "*.*", n + "*", n + "?", "**" + n[1:]])
+    else:
+        p = n
+    p = "".join(c for c in p if c not in "[]\\;!@")
+    return swapcase(rng, p or n)
 
 
 def gen_forest(rng, nf, is_c, budget, maxdepth):
@@ -179,6 +217,7 @@ def gen_case(rng, allow_mixed=True):
     funcs = [p[0] for p in picks]
     tags = set("fn:" + p[1] for p in picks)
     names = [fname_guess(f) for f in funcs]
+    patt = rng.choice([None, None, None, None, "glob", "glob", "simple", "regex", "bogus"])
     r = rng.random()
     if r < 0.22:
         env = None
@@ -189,7 +228,7 @@ def gen_case(rng, allow_mixed=True):
         n = rng.choice([1, 1, 2, 3])
         env = []
         for j in range(n):
-            p = gen_pattern(rng, names)
+            p = gen_glob(rng, names) if patt == "glob" and rng.random() < 0.8 else gen_pattern(rng, names)
             out = (kind == "N") or (kind == "FN" and (j % 2 == 1 or rng.random() < 0.3))
             env.append(("!" if out else "") + p)
         if kind == "FN" and not any(e.startswith("!") for e in env):
@@ -212,7 +251,9 @@ def gen_case(rng, allow_mixed=True):
         pys = [i for i in range(len(funcs)) if not is_c[i]]
         raw = [("return", rng.choice(pys)) for _ in range(rng.randrange(1, 4))]
         tags.add("returns-of-frames-never-called")
-    return {"env": env, "lib": lib, "pymain": pymain, "funcs": funcs, "forest": forest, "raw": raw, "tags": sorted(tags)}
+    tags.add("patt:" + str(patt))
+    return {"patt": patt, "env": env, "lib": lib, "pymain": pymain, "funcs": funcs, "forest": forest, "raw": raw,
+            "tags": sorted(tags)}
 
 
 WITNESSES = [
@@ -299,6 +340,8 @@ class Impl:
             env["UFTRACE_PYMAIN"] = k["pymain"]
         if k["env"] is not None:
             env["UFTRACE_FILTER"] = ";".join(k["env"])
+        if k.get("patt"):
+            env["UFTRACE_PATTERN"] = k["patt"]
         if k["lib"] != "SINGLE":
             env["UFTRACE_PY_LIBCALL"] = k["lib"]
         try:
@@ -320,8 +363,10 @@ class Impl:
                     res["hook_parent_nonzero"] = True
         sp = os.path.join(d, "python.fake.sym")
         res["symfile_ok"] = False
+        res["symbytes"] = b""
         if os.path.exists(sp):
-            lines = open(sp, "rb").read().decode("latin-1").split("\n")
+            res["symbytes"] = open(sp, "rb").read()
+            lines = res["symbytes"].decode("latin-1").split("\n")
             body = [l for l in lines if l and not l.startswith("#")]
             ok = len(body) >= 1 and body[-1].split(" ", 2)[2] == "__sym_end"
             expect = 1
@@ -341,18 +386,25 @@ class Impl:
 
 
 def case_json(k):
-    return {kk: k[kk] for kk in ("env", "lib", "pymain", "funcs", "forest", "raw")}
+    return {kk: k.get(kk) for kk in ("patt", "env", "lib", "pymain", "funcs", "forest", "raw")}
 
 
 def evaluate(ctx, cases, name="cases"):
     defs = "Definition cases : list case := [\n%s\n].\n" % ";\n".join(c_case(k) for k in cases)
     # judged by the specification: well-formed streams, also when followed by returns of frames that were never
     # called under the profiler (a script ended by an exception)
-    defs += ("Definition wf (k : case) : bool := forallb (fun p => match fst p with Return => true | _ => false end) (k_raw k).\n")
+    # ... over a function table whose names determine the symbols (hypotheses of C19_trace_python_spec)
+    defs += ("Definition wf (k : case) : bool := forallb (fun p => match fst p with Return => true | _ => false end) (k_raw k)"
+             " && consistentb (option_map main_dir_of (k_pymain k)) (k_funcs k).\n")
+    # the bytes of python.fake.sym must be the rendering of the table (C19_symfile_roundtrip then gives the names
+    # and addresses every reader gets back; the Python-side parse of the file is not trusted)
+    defs += "Definition files : list (list N) := [\n%s\n].\n" % ";\n".join(cs(k.get("symbytes", b"")) for k in cases)
     res = coq.run_cases(ctx, name, PRE, defs, [
+        ("symfile", "bad_indices (fun p => bytes_eqb (render_symtab (k_symtab (fst p))) (snd p)) (combine cases files) 0"),
         ("mismatch", "bad_indices agrees cases 0"),
         ("violations", "bad_indices (fun k => negb (wf k) || ok_case k) cases 0"),
         ("unbalanced", "bad_indices (fun k => negb (wf k) || ok_balanced k) cases 0"),
+        ("not_judged", "bad_indices wf cases 0"),
     ])
     if res is None:
         return None
@@ -363,13 +415,14 @@ def scripted(ctx, objdir):
     rng = ctx.rng
     impl = Impl(ctx, objdir)
     cases = [dict(w) for w in WITNESSES]
-    n = ctx.n(200, 1700)
+    n = ctx.n(200, 1500)
     for i in range(n):
         cases.append(gen_case(rng))
     for k in cases:
         r = impl.run(k)
         k.update({"hooks": r["hooks"], "symtab": r["symtab"], "rfuncs": r["rfuncs"], "rc": r["rc"], "err": r["err"],
-                  "symfile_ok": r.get("symfile_ok", False), "hook_parent_nonzero": r["hook_parent_nonzero"]})
+                  "symfile_ok": r.get("symfile_ok", False), "hook_parent_nonzero": r["hook_parent_nonzero"],
+                  "symbytes": r.get("symbytes", b"")})
     return cases
 
 
@@ -390,6 +443,12 @@ def scripted_verdict(ctx, cases, res):
                           {"mode": "scripted", "case": case_json(k)}, True)
             return
     viol = sorted(set(res["violations"]) | set(res["unbalanced"]))
+    if res.get("symfile"):
+        k = cases[res["symfile"][0]]
+        ctx.violation("python.fake.sym written at exit is not byte for byte the rendering of the symbol table "
+                      "(%d cases): header of 48 bytes, `%%016x %%c %%s` entries, __sym_end" % len(res["symfile"]),
+                      {"mode": "scripted", "case": case_json(k), "impl_symtab": k["symtab"],
+                       "file": k.get("symbytes", b"").decode("latin-1")}, True)
     for i in viol[:3]:
         k = cases[i]
         what = "unbalanced hook calls" if i in res["unbalanced"] else "trace is not the selected call forest"
@@ -403,6 +462,7 @@ def scripted_verdict(ctx, cases, res):
                       {"mode": "scripted", "correspondence": "C19.Model.trace_python vs uftrace_trace_python",
                        "case": case_json(k), "impl_hooks": k["hooks"], "impl_symtab": k["symtab"]}, False)
     ctx.extra["disagreements_checked"] = ctx.extra.get("disagreements_checked", 0) + len(cases)
+    ctx.extra["scripted_cases_judged_by_specification"] = len(cases) - len(res.get("not_judged", []))
 
 
 # --------------------------------------------------------------------------- entry points
@@ -420,10 +480,11 @@ def common_meta(ctx):
     ctx.trusted = [
         "Coq 8.16.1 kernel incl. vm_compute; no axioms (Print Assumptions: closed under the global context)",
         "hand-written model coq/theories/C19/Model.v of python/trace-python.c (init_filters, match_filter [ERE subset "
-        "^ $ . literals], apply_filters, can_trace, event dispatch, get_python_funcname/get_c_funcname, code_tree/symtab) "
+        "^ $ . literals; glob subset * ? literals; simple], apply_filters, can_trace, event dispatch, "
+        "get_python_funcname/get_c_funcname, code_tree/symtab) and coq/theories/C19/SymFile.v (write_symtab, line reader) "
         "incl. the call-depth test (depth_guard)",
         "harness/py/c19_driver.py (synthetic frame objects, real builtin objects), harness/c/c19_fakemcount.c (logs hook calls), "
-        "props/c19.py (parsers of python.fake.sym and of `uftrace replay` output, program generator)",
+        "props/c19.py (parser of `uftrace replay` output, program generator; python.fake.sym is compared byte for byte in Coq)",
         "CPython 3.11 profile-event discipline (call/return, c_call/c_return|c_exception) = the forests of the theorems",
     ]
     ctx.assume = [
@@ -432,7 +493,7 @@ def common_meta(ctx):
         "every c_call; returns of frames entered before sys.setprofile() (runpy, when the script ends by an exception) may follow",
         "single thread (libcall_count and filter_state are process-global by design)",
         "counters do not overflow int (fewer than 2^31 nested calls)",
-        "filter patterns within the modelled ERE subset (^, $, '.', literals) or plain names; UFTRACE_PATTERN unset",
+        "filter patterns within the modelled subsets: regex ^ $ . literals, glob * ? literals (no brackets, no backslash)",
         "function names determine the library flag (a name is created once; later functions with the same name share it)",
     ]
 
@@ -470,7 +531,8 @@ def replay(ctx, obj):
     k["tags"] = []
     r = Impl(ctx, objdir).run(k)
     k.update({"hooks": r["hooks"], "symtab": r["symtab"], "rfuncs": r["rfuncs"], "rc": r["rc"], "err": r["err"],
-              "symfile_ok": r.get("symfile_ok", False), "hook_parent_nonzero": r["hook_parent_nonzero"]})
+              "symfile_ok": r.get("symfile_ok", False), "hook_parent_nonzero": r["hook_parent_nonzero"],
+              "symbytes": r.get("symbytes", b"")})
     ctx.log("replayed: hooks", k["hooks"], "symtab", k["symtab"])
     ctx.case(key="replay", sample={"hooks": k["hooks"]})
     res = evaluate(ctx, [k], name="replay")
